@@ -295,7 +295,47 @@ def mapped_shadow_case(case):
     return dict(reproduced=bool(violated), violated=violated[:12])
 
 
+def prefix_list_case(case):
+    """C01 (PrefixList): every assignment stores a member of THIS trait's values -- the value itself or its unique completion --
+    or raises TraitError; whatever other PrefixList traits exist and whatever was assigned to them before."""
+    import itertools
+    from traits.api import HasTraits, PrefixList, TraitError
+    violated = []
+    lists = [["yes", "no"], ["red", "yellow", "green"], ["yawning", "yearning", "calm"], ["small", "large"], ["y", "yy", "n"], ["no", "nobody"]]
+    probes = ["y", "ye", "yes", "n", "no", "nob", "r", "s", "", "ya", "yy", "x", "g", "l", 3, None]
+
+    def expected(vals, v):
+        if not isinstance(v, str):
+            return None
+        if v in vals:
+            return v
+        m = [x for x in vals if x.startswith(v)]
+        return m[0] if len(m) == 1 else None
+    for order in (list(range(len(lists))), list(reversed(range(len(lists))))):
+        ns = {"t%d" % i: PrefixList(lists[i]) for i in order}
+        cls = type("P", (HasTraits,), ns)
+        o = cls()
+        for v in probes:
+            for i in order:
+                nm = "t%d" % i
+                want = expected(lists[i], v)
+                before = getattr(o, nm)
+                try:
+                    setattr(o, nm, v)
+                    got = ("ok", getattr(o, nm))
+                except TraitError:
+                    got = ("TraitError", getattr(o, nm))
+                except Exception as e:
+                    got = ("raises %r" % e, getattr(o, nm))
+                exp = ("ok", want) if want is not None else ("TraitError", before)
+                if got != exp:
+                    violated.append("PrefixList(%r) <- %r (after the same value went to the other PrefixList traits): %r, expected %r" % (lists[i], v, got, exp))
+    return dict(reproduced=bool(violated), violated=violated[:10])
+
+
 def run(case):
+    if case.get("family") == "prefix_list":
+        return prefix_list_case(case)
     if case.get("family") == "mapped_shadow":
         return mapped_shadow_case(case)
     if case.get("family") == "Map.__init__":
